@@ -179,7 +179,23 @@ func (rc *SRespCodec) readReply(buf *codec.Buffer) (codec.Command, error) {
 	return codec.UNKNOWN, codec.ErrInvalidResp
 }
 
+// fragError returns the error reported for the whole request when a fragment of a split
+// request is not answered with the expected reply type: the node's own error reply if it
+// sent one, def otherwise
+func fragError(f *Frag, def codec.Error) codec.Error {
+	if f.Type == codec.RspError && len(f.RspBody) > 0 {
+		return codec.Error(f.RspBody)
+	}
+	return def
+}
+
 func (rc *SRespCodec) MGet(f *Frag, sfd int) error {
+	if f.Type != codec.RspMultibulk {
+		f.Done = true
+		f.Error = fragError(f, codec.ErrUnKnownMget)
+		return nil
+	}
+
 	f.Rsp = rc.parseMGet(f)
 	f.Done = true
 
@@ -246,6 +262,12 @@ func (rc *SRespCodec) MSet(f *Frag, sfd int) error {
 }
 
 func (rc *SRespCodec) Del(f *Frag, sfd int) error {
+	if f.Type != codec.RspInteger {
+		f.Done = true
+		f.Error = fragError(f, codec.ErrUnKnown)
+		return nil
+	}
+
 	line := f.RspBody[1 : len(f.RspBody)-2]
 	n, _ := parseLen(line)
 	f.Peer.DelNum += n
